@@ -1,8 +1,8 @@
 SPECIFICATION Spec
-CONSTANTS MaxOuts = 1
- MaxLines = 2
- Timeouts = FALSE
- TwoSteps = TRUE
+CONSTANTS MaxOuts = 0
+ MaxLines = 0
+ Timeouts = TRUE
+ TwoSteps = FALSE
  Export = TRUE
 INVARIANT ToolSound
 INVARIANT Emit
